@@ -3,6 +3,7 @@
 //   - a storage.NeedleMap over a temp .idx, then reloaded with LoadCompactNeedleMap,
 //   - a storage.LevelDbNeedleMap, then reopened from the .idx alone (db directory removed),
 //   - a storage.SortedFileNeedleMap generated from the NeedleMap's .idx.
+//
 // Build with -tags "verif" and "verif 5BytesOffset".
 package main
 
@@ -12,12 +13,13 @@ import (
 	"path/filepath"
 	"sort"
 	"strings"
+	"time"
 
 	"github.com/chrislusf/seaweedfs/weed/storage"
 	"github.com/chrislusf/seaweedfs/weed/storage/idx"
 	"github.com/chrislusf/seaweedfs/weed/storage/needle_map"
-	"github.com/willf/bloom"
 	"github.com/chrislusf/seaweedfs/weed/storage/types"
+	"github.com/willf/bloom"
 	"verifharness/hx"
 )
 
@@ -164,8 +166,108 @@ func dumpEntries(es []needle_map.VerifEntry) string {
 	return hx.List(xs)
 }
 
+// dgStep: the digest of check/C05.v (dg_step)
+func dgStep(h, k, o uint64, s int32) uint64 {
+	return h*1000003 + k*7 + o*13 + uint64(uint32(s))*17 + 1 // uint64 wrap-around
+}
+
+type ent struct {
+	k, o uint64
+	s    int32
+}
+
+// clist prints a long list as (CL length skipped digest-of-skipped [rest]); lists of up to 400
+// entries are printed whole
+func clist(es []ent) string {
+	skip := 0
+	if len(es) > 400 {
+		skip = len(es) - 300
+	}
+	h := uint64(0)
+	for _, e := range es[:skip] {
+		h = dgStep(h, e.k, e.o, e.s)
+	}
+	xs := make([]string, 0, len(es)-skip)
+	for _, e := range es[skip:] {
+		xs = append(xs, fmt.Sprintf("(NV %s %s %s)", n(e.k), n(e.o), z(int64(e.s))))
+	}
+	return fmt.Sprintf("(CL %s %s %s %s)", n(uint64(len(es))), n(uint64(skip)), n(h), hx.List(xs))
+}
+
+func sectionEnts(es []needle_map.VerifEntry) []ent {
+	xs := make([]ent, len(es))
+	for i, e := range es {
+		xs[i] = ent{uint64(e.Key), units(e.Offset), int32(e.Size)}
+	}
+	return xs
+}
+
+// fillSpec: n ascending Puts base+i*step (offset i+1, size 100+i%50) that the bare CompactMap
+// receives before the operations of the case (model/NeedleMap.v fill_ops)
+type fillSpec struct{ base, step, n uint64 }
+
+// longSpec: an index file head ++ n descending keys base+n*step .. base+step ++ tail
+// (model/NeedleMap.v long_entries), written directly
+type longSpec struct {
+	head       []ent
+	base, step uint64
+	n          int
+	tail       []ent
+}
+
+func (l *longSpec) entries() []ent {
+	es := append([]ent(nil), l.head...)
+	for i := 0; i < l.n; i++ {
+		es = append(es, ent{l.base + uint64(l.n-i)*l.step, uint64(i + 1), int32(100 + i%50)})
+	}
+	return append(es, l.tail...)
+}
+
+func coqEntries(es []ent) string {
+	xs := make([]string, len(es))
+	for i, e := range es {
+		xs[i] = fmt.Sprintf("(EN %s %s %s)", n(e.k), n(e.o), z(int64(e.s)))
+	}
+	return hx.List(xs)
+}
+
+func setPast(p string) {
+	past := time.Now().Add(-time.Hour)
+	hx.Must(os.Chtimes(p, past, past))
+}
+
+// runLong writes the long index file and opens it as LevelDB and as sorted-file map
+func runLong(dir string, l *longSpec, probe []uint64) string {
+	if l == nil {
+		return "c_long_head := []; c_long := (T3 0 0 0); c_long_tail := []; c_long_bloom := []; i_long_ldb_met := (MET 0 0 0 0 0); i_long_ldb_look := []; i_long_sf_met := (MET 0 0 0 0 0); i_long_sf_look := []; i_long_sdx_len := 0"
+	}
+	var b []byte
+	for _, e := range l.entries() {
+		b = append(b, needle_map.ToBytes(types.NeedleId(e.k), mkOffset(e.o), types.Size(e.s))...)
+	}
+	idxPath := filepath.Join(dir, "long.idx")
+	hx.Must(os.WriteFile(idxPath, b, 0644))
+	f1 := openRW(idxPath)
+	lm, err := storage.NewLevelDbNeedleMap(filepath.Join(dir, "long.ldb"), f1, nil)
+	hx.Must(err)
+	ldbMet, ldbLook := metric(lm), lookups(lm, probe)
+	lm.Close()
+	f2 := openRW(idxPath)
+	sm, err := storage.NewSortedFileNeedleMap(filepath.Join(dir, "long"), f2)
+	hx.Must(err)
+	sfMet, sfLook := metric(sm), lookupsSf(sm, probe)
+	sm.Close()
+	st, err := os.Stat(filepath.Join(dir, "long.sdx"))
+	hx.Must(err)
+	return fmt.Sprintf("c_long_head := %s; c_long := (T3 %s %s %s); c_long_tail := %s; c_long_bloom := %s; i_long_ldb_met := %s; i_long_ldb_look := %s; i_long_sf_met := %s; i_long_sf_look := %s; i_long_sdx_len := %s",
+		coqEntries(l.head), n(l.base), n(l.step), n(uint64(l.n)), coqEntries(l.tail), bloomAnswers(b), ldbMet, ldbLook, sfMet, sfLook, n(uint64(st.Size())))
+}
+
+// a SortedFileNeedleMap lookup of an absent key returns a zero value with ok = false
+func lookupsSf(nm storage.NeedleMapper, probe []uint64) string { return lookups(nm, probe) }
+
 // idxSkip: number of leading .idx entries not reported (see packIdx)
-func runCase(out *hx.Out, ops []op, probe []uint64, kind string, idxSkip int) {
+func runCase(out *hx.Out, fill fillSpec, ops []op, probe []uint64, kind string, idxSkip int, long *longSpec) {
 	dir, err := os.MkdirTemp("", "c05")
 	hx.Must(err)
 	defer os.RemoveAll(dir)
@@ -174,6 +276,16 @@ func runCase(out *hx.Out, ops []op, probe []uint64, kind string, idxSkip int) {
 	// ---- bare CompactMap ----
 	cm := needle_map.NewCompactMap()
 	var cmRes []string
+	fillBad := 0
+	for i := uint64(0); i < fill.n; i++ {
+		oo, os_ := cm.Set(types.NeedleId(fill.base+i*fill.step), mkOffset(i+1), types.Size(100+i%50))
+		if !oo.IsZero() || os_ != 0 {
+			fillBad++
+		}
+	}
+	if fill.n > 0 {
+		out.Count("cases-with-full-section-fill", 1)
+	}
 	for _, o := range ops {
 		switch o.kind {
 		case 0:
@@ -196,10 +308,22 @@ func runCase(out *hx.Out, ops []op, probe []uint64, kind string, idxSkip int) {
 	var secs []string
 	nOverflow, nSections := 0, 0
 	for _, s := range cm.VerifSections() {
-		secs = append(secs, fmt.Sprintf("(SEC %s %s %s %s)", n(s.Start), n(s.End), dumpEntries(s.Values), dumpEntries(s.Overflow)))
+		secs = append(secs, fmt.Sprintf("(SEC %s %s %s %s)", n(s.Start), n(s.End), clist(sectionEnts(s.Values)), dumpEntries(s.Overflow)))
 		nOverflow += len(s.Overflow)
 		nSections++
+		if len(s.Values) >= needle_map.VerifBatch {
+			out.Count("sections-at-capacity", 1)
+			if len(s.Overflow) > 0 {
+				out.Count("sections-at-capacity-with-overflow", 1)
+			}
+		}
 	}
+	var asc []ent
+	hx.Must(cm.AscendingVisit(func(v needle_map.NeedleValue) error {
+		asc = append(asc, ent{uint64(v.Key), units(v.Offset), int32(v.Size)})
+		return nil
+	}))
+	ascStr := clist(asc)
 	cm = nil
 	out.Count(fmt.Sprintf("sections:%02d", nSections), 1)
 	if nOverflow > 0 {
@@ -224,6 +348,8 @@ func runCase(out *hx.Out, ops []op, probe []uint64, kind string, idxSkip int) {
 	}
 	memMet := metric(nm)
 	memLook := lookups(nm, probe)
+	var offs []uint64
+	offs = append(offs, uint64(storage.VerifIndexFileOffset(nm)))
 	nm.Close()
 	memIdxBytes := readFile(memIdx)
 	mf2 := openRW(memIdx)
@@ -231,6 +357,7 @@ func runCase(out *hx.Out, ops []op, probe []uint64, kind string, idxSkip int) {
 	hx.Must(err)
 	memMet2 := metric(nm2)
 	memLook2 := lookups(nm2, probe)
+	offs = append(offs, uint64(storage.VerifIndexFileOffset(nm2)))
 	nm2.Close()
 
 	// ---- LevelDbNeedleMap over l.idx ----
@@ -253,14 +380,32 @@ func runCase(out *hx.Out, ops []op, probe []uint64, kind string, idxSkip int) {
 	}
 	ldbMet := metric(lm)
 	ldbLook := lookups(lm, probe)
+	offs = append(offs, uint64(storage.VerifIndexFileOffset(lm)))
 	lm.Close()
 	ldbIdxBytes := readFile(ldbIdx)
+	// reopen with the db directory kept: the production path isLevelDbFresh = true (the .idx is
+	// given an older modification time, as after any restart later than the last write)
+	setPast(ldbIdx)
+	lf3 := openRW(ldbIdx)
+	if !storage.VerifIsLevelDbFresh(ldbDir, lf3) {
+		panic("c05: the kept LevelDB directory is not considered fresh")
+	}
+	lm3, err := storage.NewLevelDbNeedleMap(ldbDir, lf3, nil)
+	hx.Must(err)
+	ldbMet3 := metric(lm3)
+	ldbLook3 := lookups(lm3, probe)
+	off3 := uint64(storage.VerifIndexFileOffset(lm3))
+	lm3.Close()
+	if strings.Contains(ldbLook3, "(-") {
+		out.Count("ldb-kept-db-serves-negated-size", 1)
+	}
 	hx.Must(os.RemoveAll(ldbDir)) // reload from the index file alone
 	lf2 := openRW(ldbIdx)
 	lm2, err := storage.NewLevelDbNeedleMap(ldbDir, lf2, nil)
 	hx.Must(err)
 	ldbMet2 := metric(lm2)
 	ldbLook2 := lookups(lm2, probe)
+	offs = append(offs, uint64(storage.VerifIndexFileOffset(lm2)), off3)
 	lm2.Close()
 
 	// ---- SortedFileNeedleMap generated from m.idx ----
@@ -269,7 +414,25 @@ func runCase(out *hx.Out, ops []op, probe []uint64, kind string, idxSkip int) {
 	hx.Must(err)
 	sfMet := metric(sm)
 	sfLook := lookups(sm, probe)
+	offs = append(offs, uint64(storage.VerifIndexFileOffset(sm)))
 	sm.Close()
+	sdxBytes := readFile(filepath.Join(dir, "m.sdx"))
+	// reopen with the .sdx kept (isSortedFileFresh = true)
+	setPast(memIdx)
+	mf4 := openRW(memIdx)
+	if !storage.VerifIsSortedFileFresh(filepath.Join(dir, "m.sdx"), mf4) {
+		panic("c05: the kept .sdx file is not considered fresh")
+	}
+	sm3, err := storage.NewSortedFileNeedleMap(filepath.Join(dir, "m"), mf4)
+	hx.Must(err)
+	sfMet3 := metric(sm3)
+	sfLook3 := lookups(sm3, probe)
+	offs = append(offs, uint64(storage.VerifIndexFileOffset(sm3)))
+	sm3.Close()
+	longStr := runLong(dir, long, probe)
+	if long != nil {
+		out.Count(fmt.Sprintf("long-index-entries:%05d", len(long.entries())), 1)
+	}
 
 	coqOps := make([]string, len(ops))
 	canon := make([]string, len(ops))
@@ -284,14 +447,20 @@ func runCase(out *hx.Out, ops []op, probe []uint64, kind string, idxSkip int) {
 	if bloomFalsePositives > fpBefore {
 		out.Count("cases-with-bloom-false-positive", 1)
 	}
-	term := fmt.Sprintf("{| c_osz := %s; c_batch := %s; c_ops := %s; c_probe := %s; c_bloom_mem := "+bloomMem+"; c_bloom_ldb := "+bloomLdb+"; i_cm := %s; i_secs := %s; "+
+	term := fmt.Sprintf("{| c_osz := %s; c_batch := %s; c_fill := (T3 %s %s %s); c_ops := %s; c_probe := %s; c_bloom_mem := "+bloomMem+"; c_bloom_ldb := "+bloomLdb+"; i_fill_bad := %s; i_cm := %s; i_secs := %s; i_asc := %s; "+
 		"i_mem_gets := %s; i_mem_met := %s; i_mem_idx := %s; i_mem_look := %s; i_mem_met2 := %s; i_mem_look2 := %s; "+
 		"i_ldb_gets := %s; i_ldb_met := %s; i_ldb_idx := %s; i_ldb_look := %s; i_ldb_met2 := %s; i_ldb_look2 := %s; "+
-		"i_sf_met := %s; i_sf_look := %s |}",
-		hx.N(uint64(types.OffsetSize)), hx.N(uint64(needle_map.VerifBatch)), hx.List(coqOps), hx.NList(probe), hx.List(cmRes), hx.List(secs),
+		"i_sf_met := %s; i_sf_look := %s; i_sdx := %s; i_ldb_met3 := %s; i_ldb_look3 := %s; i_sf_met3 := %s; i_sf_look3 := %s; i_offs := %s; "+longStr+" |}",
+		hx.N(uint64(types.OffsetSize)), hx.N(uint64(needle_map.VerifBatch)), n(fill.base), n(fill.step), n(fill.n), hx.List(coqOps), hx.NList(probe), n(uint64(fillBad)), hx.List(cmRes), hx.List(secs), ascStr,
 		hx.List(memGets), memMet, packIdx(memIdxBytes, idxSkip), memLook, memMet2, memLook2,
 		hx.List(ldbGets), ldbMet, packIdx(ldbIdxBytes, idxSkip), ldbLook, ldbMet2, ldbLook2,
-		sfMet, sfLook)
+		sfMet, sfLook, packIdx(sdxBytes, 0), ldbMet3, ldbLook3, sfMet3, sfLook3, hx.NList(offs))
+	if fill.n > 0 {
+		canon = append([]string{fmt.Sprintf("FILL%d+%d*%d", fill.base, fill.step, fill.n)}, canon...)
+	}
+	if long != nil {
+		canon = append(canon, fmt.Sprintf("LONG%d+%d*%d/%v/%v", long.base, long.step, long.n, long.head, long.tail))
+	}
 	out.Count(fmt.Sprintf("ops-per-case:%03d+", len(ops)/50*50), 1)
 	out.Add(term, strings.Join(canon, ","), nontrivial, kind)
 }
@@ -435,7 +604,7 @@ func (g *gen) randomOps(universe []uint64, n int) {
 
 func main() {
 	out := hx.Flags("C05", 300)
-	out.Rule = "histories of Put/Delete/Get. Key universes: 1-3 section bases out of {0,7,100000,300000,2^32-3,2^32,2^32+100000,2^40,2^63,2^64-2^32-104} plus small offsets, keys just inside/outside the 2^32-1 span of a section, and in wild histories the 2^32 alias of a key. 'short' histories: 8..70 random ops (ascending, descending and interleaved key orders create, order and fill several sections). 'long' histories (1 in 3): 129..175 ascending keys base+10*i, then 20..60 ops on in-between keys base+10*j+5 (j below the 128-entry look-back window: overflow path incl. overwrite, delete, re-delete; j inside the window: shifted insertion) mixed with ops on existing keys. Modes: 'wild' (any size incl. 0, negative, tombstone, MinInt32, MaxInt32; zero offsets; deletes of anything), 'disciplined' (what a Volume issues: nonzero offset, size>0, delete only live keys; half of them never write a key twice), 'disciplined+empty' (size 0 allowed: finding 0). Offsets up to the build's maximum (>= 2^32 under 5BytesOffset in 1 of 4 puts). The section capacity batch=100000 of the real code is not reachable (capacity overflow is covered by the proofs with batch as a parameter). Every case also carries the answers of the real bloom filter (same library, parameters and key order as newNeedleMapMetricFromIndexFile) for both .idx files: the model's oracle; a false positive is finding 2. First five cases are fixed witnesses (findings 0 and 1, and the three repaired defects). non-trivial = some Get found a value or some Delete removed one on the bare CompactMap; distinct = canonical op list"
+	out.Rule = "histories of Put/Delete/Get. Key universes: 1-3 section bases out of {0,7,100000,300000,2^32-3,2^32,2^32+100000,2^40,2^63,2^64-2^32-104} plus small offsets, keys just inside/outside the 2^32-1 span of a section, and in wild histories the 2^32 alias of a key. 'short' histories: 8..70 random ops (ascending, descending and interleaved key orders create, order and fill several sections). 'long' histories (1 in 3): 129..175 ascending keys base+10*i, then 20..60 ops on in-between keys base+10*j+5 (j below the 128-entry look-back window: overflow path incl. overwrite, delete, re-delete; j inside the window: shifted insertion) mixed with ops on existing keys. Modes: 'wild' (any size incl. 0, negative, tombstone, MinInt32, MaxInt32; zero offsets; deletes of anything), 'disciplined' (what a Volume issues: nonzero offset, size>0, delete only live keys; half of them never write a key twice), 'disciplined+empty' (size 0 allowed: finding 0). Offsets up to the build's maximum (>= 2^32 under 5BytesOffset in 1 of 4 puts). The section capacity batch=100000 of the real code IS reached: shard 0 of every run has a fixed case and shard 1 (4-byte build) resp. shard 2 (5-byte build) a random one ('full-section') whose bare CompactMap first receives 100000 (or 99999/99998) ascending Puts (c_fill; the model starts from the proved closed form fill_cm) and then ops on keys below/inside the look-back window of the full section, beyond its end (new section after a full last section, code -4), between the full section's end and the next section's start, with double deletes of overflow keys; lists longer than 400 entries are reported as length + digest of a prefix + the last 300 entries. Every shard has one 'long-index' case: an index file of 4096/8193/4095/4097/1025/8192/1024/4098 entries (by shard) = 8 explicit entries ++ descending keys ++ 8 explicit entries (rewrites, tombstones, repeats) opened as LevelDB and sorted-file map (batches of reverseWalkIndexFile / WalkIndexFile). All cases: CompactMap.AscendingVisit, the .sdx bytes, indexFileOffset of all seven maps, and the LevelDB / sorted-file maps reopened with db directory / .sdx kept (isLevelDbFresh / isSortedFileFresh = true, asserted through a hook). Every case also carries the answers of the real bloom filter (same library, parameters and key order as newNeedleMapMetricFromIndexFile) for both .idx files: the model's oracle; a false positive is finding 2. First five cases are fixed witnesses (findings 0 and 1, and the three repaired defects). non-trivial = some Get found a value or some Delete removed one on the bare CompactMap; distinct = canonical op list"
 	root := hx.NewRng(out.Seed)
 	out.Extra["offset_size"] = types.OffsetSize
 	out.Extra["batch"] = needle_map.VerifBatch
@@ -455,15 +624,15 @@ func main() {
 		asc(g, 0, 140)
 		g.ops = append(g.ops, op{0, 55, 7, 778}, op{2, 55, 0, 0}, op{1, 55, 9, 0}, op{1, 55, 9, 0}, op{2, 55, 0, 0}, op{1, 50, 9, 0}, op{1, 50, 9, 0})
 		g.keys[55], g.keys[50] = true, true
-		runCase(out, g.ops, g.probes(), "witness-repaired-overflow-redelete", 135)
+		runCase(out, fillSpec{}, g.ops, g.probes(), "witness-repaired-overflow-redelete", 135, nil)
 	}
 	// 1: finding 0 — empty put, counted while running, a deletion on reload
-	runCase(out, []op{{0, 1, 1, 0}, {0, 2, 2, 5}, {2, 1, 0, 0}}, []uint64{0, 1, 2, 3}, "witness-finding0-empty-put", 0)
+	runCase(out, fillSpec{}, []op{{0, 1, 1, 0}, {0, 2, 2, 5}, {2, 1, 0, 0}}, []uint64{0, 1, 2, 3}, "witness-finding0-empty-put", 0, nil)
 	// 2: finding 1 — LevelDB / sorted-file counters after a key was written twice
-	runCase(out, []op{{0, 1, 1, 10}, {0, 1, 2, 20}, {0, 2, 3, 30}, {1, 2, 4, 0}, {0, 2, 5, 40}, {2, 1, 0, 0}, {2, 2, 0, 0}}, []uint64{0, 1, 2, 3}, "witness-finding1-rewrite", 0)
+	runCase(out, fillSpec{}, []op{{0, 1, 1, 10}, {0, 1, 2, 20}, {0, 2, 3, 30}, {1, 2, 4, 0}, {0, 2, 5, 40}, {2, 1, 0, 0}, {2, 2, 0, 0}}, []uint64{0, 1, 2, 3}, "witness-finding1-rewrite", 0, nil)
 	// 3: repaired (i) — a key 2^32 above an existing one is absent and cannot delete it
-	runCase(out, []op{{0, 5, 1, 10}, {0, 6, 2, 20}, {2, 1<<32 + 5, 0, 0}, {1, 1<<32 + 6, 3, 0}, {2, 5, 0, 0}, {2, 6, 0, 0}, {0, 1<<32 + 5, 4, 30}, {2, 1<<32 + 5, 0, 0}, {2, 5, 0, 0}},
-		[]uint64{5, 6, 1<<32 + 5, 1<<32 + 6, 1<<33 + 5}, "witness-repaired-span", 0)
+	runCase(out, fillSpec{}, []op{{0, 5, 1, 10}, {0, 6, 2, 20}, {2, 1<<32 + 5, 0, 0}, {1, 1<<32 + 6, 3, 0}, {2, 5, 0, 0}, {2, 6, 0, 0}, {0, 1<<32 + 5, 4, 30}, {2, 1<<32 + 5, 0, 0}, {2, 5, 0, 0}},
+		[]uint64{5, 6, 1<<32 + 5, 1<<32 + 6, 1<<33 + 5}, "witness-repaired-span", 0, nil)
 	{ // 4: repaired (iii-a) — overwrite of an overflow entry replaces the high offset byte too
 		g := newGen(root, true, true, false)
 		asc(g, 0, 140)
@@ -471,7 +640,88 @@ func main() {
 		// reload comparison — where rewriting key 55 would trip finding 1 — does not apply)
 		g.ops = append(g.ops, op{0, 55, maxUnits(), 777}, op{2, 55, 0, 0}, op{0, 55, 9, 778}, op{2, 55, 0, 0}, op{1, 99999, 3, 0})
 		g.keys[55] = true
-		runCase(out, g.ops, g.probes(), "witness-repaired-overflow-overwrite", 135)
+		runCase(out, fillSpec{}, g.ops, g.probes(), "witness-repaired-overflow-overwrite", 135, nil)
+	}
+
+	// ---- a section filled to the real capacity; a long index file (one of each kind per shard:
+	// bin/check runs every shard as its own harness process with seed*1000+shard) ----
+	shard := int(out.Seed % 1000)
+	B := uint64(needle_map.VerifBatch)
+	if shard == 0 && out.Len() < out.N {
+		end := 2 * (B - 1)
+		ops := []op{{0, 1001, 7, 778}, {2, 1001, 0, 0}, // below the window of a full section: overflow
+			{0, end - 97, 8, 5}, {2, end - 97, 0, 0}, // inside the window, but no capacity left: overflow
+			{0, end + 7, 9, 6}, {2, end + 7, 0, 0}, // beyond the end of the full last section: new section
+			{0, end + 5, 10, 7}, {2, end + 5, 0, 0}, // between them: overflow of the full section, end moves
+			{1, 1001, 3, 0}, {1, 1001, 3, 0}, {2, 1001, 0, 0}, {1, end + 5, 3, 0}, {0, 1000, 11, 8}, {2, 1000, 0, 0},
+			{2, end, 0, 0}, {0, end + 100000, 12, 9}, {2, end + 100000, 0, 0}, {2, end + 6, 0, 0}, {0, 1001, 13, 10}, {2, 1001, 0, 0},
+			{0, end - 97, maxUnits(), 11}, {2, end - 97, 0, 0}, {1, end - 2, 3, 0}, {2, end - 2, 0, 0}}
+		probe := []uint64{0, 1, 2, 1000, 1001, 1002, end - 98, end - 97, end - 96, end - 2, end, end + 1, end + 5, end + 6, end + 7, end + 8, end + 100000, 1<<32 + 1001, 1<<64 - 1}
+		runCase(out, fillSpec{0, 2, B}, ops, probe, "full-section-fixed", 0, nil)
+	}
+	if (shard == 1 && types.OffsetSize == 4 || shard == 2 && types.OffsetSize == 5) && out.Len() < out.N {
+		r := root.Fork()
+		base := r.PickU64([]uint64{0, 7, 1 << 32, 1 << 40, 1 << 63, 1<<64 - 4294967400})
+		step := uint64(r.Range(2, 3))
+		nfill := B - uint64(r.Intn(3))
+		end := base + (nfill-1)*step
+		var universe []uint64
+		for j := 0; j < 6; j++ {
+			universe = append(universe, base+step*uint64(r.Intn(int(nfill)-200))+1)
+		}
+		for j := 0; j < 3; j++ {
+			universe = append(universe, base+step*(nfill-1-uint64(r.Intn(100)))-1)
+		}
+		for j := 0; j < 4; j++ {
+			universe = append(universe, base+step*uint64(r.Intn(int(nfill))))
+		}
+		universe = append(universe, end, end+1, end+2, end+step, end+2*step, end+1000, end+100000)
+		if base > 0 {
+			universe = append(universe, base-1)
+		}
+		g := newGen(r, true, true, false)
+		g.randomOps(universe, r.Range(18, 28))
+		k := universe[r.Intn(6)] // an overflow key of the full section, deleted twice
+		g.put(k)
+		g.del(k)
+		g.del(k)
+		g.get(k)
+		runCase(out, fillSpec{base, step, nfill}, g.ops, g.probes(), "full-section", 0, nil)
+	}
+	if out.Len() < out.N {
+		r := root.Fork()
+		total := []int{4096, 8193, 4095, 4097, 1025, 8192, 1024, 4098}[shard%8]
+		l := &longSpec{base: r.PickU64([]uint64{0, 7, 1 << 32, 1 << 40}), step: 3, n: total - 16}
+		keys := map[uint64]bool{}
+		mk := func(prev []ent) ent {
+			var k uint64
+			switch x := r.Intn(8); {
+			case x < 4:
+				k = l.base + l.step*uint64(r.Range(1, l.n)) // a key of the descending run
+			case x < 6 || len(prev) == 0:
+				k = l.base + l.step*uint64(r.Range(1, l.n)) + 1 // a key of its own
+			default:
+				k = prev[r.Intn(len(prev))].k
+			}
+			keys[k] = true
+			if r.Chance(1, 3) {
+				return ent{k, uint64(r.Range(1, 3000)), -1} // tombstone
+			}
+			return ent{k, uint64(r.Range(1, 3000)), int32(r.Range(1, 2000))}
+		}
+		for j := 0; j < 8; j++ {
+			l.head = append(l.head, mk(l.head))
+		}
+		for j := 0; j < 8; j++ {
+			l.tail = append(l.tail, mk(append(append([]ent(nil), l.head...), l.tail...)))
+		}
+		var probe []uint64
+		for k := range keys {
+			probe = append(probe, k, k+1)
+		}
+		probe = append(probe, l.base, l.base+l.step, l.base+l.step*uint64(l.n), l.base+l.step*uint64(l.n)+1, l.base+l.step*uint64(l.n/2), 1<<64-1)
+		sort.Slice(probe, func(i, j int) bool { return probe[i] < probe[j] })
+		runCase(out, fillSpec{}, []op{{0, 1, 1, 10}, {2, 1, 0, 0}}, probe, "long-index", 0, l)
 	}
 
 	for i := out.Len(); i < out.N; i++ {
@@ -542,7 +792,7 @@ func main() {
 			g.randomOps(universe, r.Range(8, 70))
 		}
 		out.Count("mode:"+kind, 1)
-		runCase(out, g.ops, g.probes(), kind, idxSkip)
+		runCase(out, fillSpec{}, g.ops, g.probes(), kind, idxSkip, nil)
 	}
 	out.Write()
 }
